@@ -71,6 +71,10 @@ inline NLW2_SOLReadResultCode Read(
     auto el = strtod(s = se, &se);
     if (se <= s)
       return NLW2_SOLRead_Bad_Line;
+    if (std::numeric_limits<El>::is_integer
+        && !(el >= (double)std::numeric_limits<El>::min()
+             && el <= (double)std::numeric_limits<El>::max()))
+      return NLW2_SOLRead_Bad_Line;   // not representable
     v.second = (El)el;
   }
   return NLW2_SOLRead_OK;
